@@ -20,7 +20,7 @@ var ghostBuiltins = map[string]bool{
 	"implies": true, "iff": true, "forall": true, "exists": true, "old": true, "has": true,
 	"lo": true, "hi": true, "at": true, "held": true, "typeIs": true, "gint": true, "allocated": true,
 	"sameArray": true, "refOf": true, "nonNil": true, "dynRef": true, "before": true,
-	"glen": true, "gentry": true, "gfield": true, "gfieldS": true, "mulGE": true, "ptrAt": true, "sliceRef": true, "elemAt": true, "smHas": true, "smIs": true, "smGet": true, "gclock": true, "chanRef": true, "timeNanos": true,
+	"glen": true, "gentry": true, "gfield": true, "gfieldS": true, "mulGE": true, "ptrAt": true, "sliceRef": true, "elemAt": true, "smHas": true, "smIs": true, "smGet": true, "gclock": true, "chanRef": true, "timeNanos": true, "mapRef": true, "live": true,
 }
 
 func (x *Exec) isGhostBuiltin(fn *ssa.Function) bool {
@@ -443,6 +443,11 @@ func (x *Exec) ghost(name string, fn *ssa.Function, args []*Val, st *State, pos 
 			}
 			return x.load(st, &Ptr{Kind: PHeap, Ref: ref, Root: t})
 		}
+	case "live":
+		// the object exists now (its identity is not above the current allocation top)
+		return scalar(boolT, "(<= "+x.refTerm(st, args[0])+" "+st.allocTop+")", "Bool")
+	case "mapRef":
+		return scalar(types.Typ[types.Int], x.intAsGo(args[0].S), I)
 	case "timeNanos":
 		return scalar(types.Typ[types.Int64], args[0].S, bvSort(64))
 	case "chanRef":
@@ -658,7 +663,7 @@ func (x *Exec) contractCall(fn *ssa.Function, key string, ctr *Contract, args []
 	savedBase := x.allocBase
 	x.allocBase = topBefore
 	defer func() { x.allocBase = savedBase }()
-	for _, cl := range ctr.Ensures {
+	for _, cl := range append(append([]*Clause{}, ctr.Defines...), ctr.Ensures...) {
 		for _, inst1 := range x.logicalInstances(cl) {
 			binders, inst2 := x.bindFreeLogicals(ctr, cl, inst1)
 			cargs := x.clauseArgs(ctr, cl, args, bindingVals, resList, inst2)
@@ -960,6 +965,16 @@ func (x *Exec) builtin(f *frame, name string, c *ssa.CallCommon, args []*Val, st
 		return nil
 	case "close":
 		x.closeChan(st, args[0], pos)
+		return nil
+	case "clear":
+		if _, isMap := c.Args[0].Type().Underlying().(*types.Map); !isMap {
+			panic(unsupported("clear of a slice"))
+		}
+		_, ks, pres, pk, pci, card, ck, cci := x.mapComps(st, c.Args[0].Type())
+		m := args[0].S
+		x.freshCheck(st, pk, m, pos)
+		x.setHeap(st, pk, pci, sto(x.use(pres), m, x.constArray(ks, "Bool", "false")))
+		x.setHeap(st, ck, cci, sto(x.use(card), m, x.sc.iConst(0)))
 		return nil
 	case "print", "println":
 		return nil
